@@ -244,8 +244,11 @@ class ConvexPolyhedron(Polyhedron):
 
     @volume.setter
     def volume(self, value: Number):
-        scale_factor = np.cbrt(value / self._volume)
-        self._rescale(scale_factor)
+        if value > 0:
+            scale_factor = np.cbrt(value / self._volume)
+            self._rescale(scale_factor)
+        else:
+            raise ValueError("Volume must be greater than zero.")
 
     @property
     def surface_area(self):
@@ -254,8 +257,11 @@ class ConvexPolyhedron(Polyhedron):
 
     @surface_area.setter
     def surface_area(self, value: Number):
-        scale_factor = np.sqrt(value / self._area)
-        self._rescale(scale_factor)
+        if value > 0:
+            scale_factor = np.sqrt(value / self._area)
+            self._rescale(scale_factor)
+        else:
+            raise ValueError("Surface area must be greater than zero.")
 
     def _calculate_surface_area(self):
         new_area = self._find_triangle_array_area(self._vertices[self._simplices])
